@@ -135,6 +135,11 @@ impl<'a> ChainRun<'a> {
             for v in ws.hist.values_mut() {
                 *v = strip_stamp(v);
             }
+            for m in ws.built.values_mut() {
+                for v in m.values_mut() {
+                    *v = strip_stamp(v);
+                }
+            }
             format!("{:?}|{:?}|{}|{}", ws, cfg, opts.abort, opts.misuse)
         };
         let links = Links {
